@@ -63,7 +63,9 @@ var fset = token.NewFileSet()
 func render(n ast.Node) string {
 	var b bytes.Buffer
 	printer.Fprint(&b, fset, n)
-	return b.String()
+	// nodes moved by the inliner keep their old positions, which makes the printer break lines after a dot
+	s := strings.Join(strings.Fields(b.String()), " ")
+	return strings.ReplaceAll(s, ". ", ".")
 }
 
 var accessors = map[string]bool{"Int32": true, "Int64": true, "Sint32": true, "Sint64": true, "Uint32": true,
@@ -99,6 +101,9 @@ func typeName(e ast.Expr) string {
 	return ""
 }
 
+// named types of the receiver's fields (set once per file; used to type aliases such as pb := dec.primitiveBlock)
+var curFieldTypes = map[string]string{}
+
 // varTypes: local variable -> type name, from parameters, `x := &T{}`, `x := T{}`, `x := make(T, ...)`, `var x T`
 func varTypes(fd *ast.FuncDecl) map[string]string {
 	vt := map[string]string{}
@@ -120,11 +125,18 @@ func varTypes(fd *ast.FuncDecl) map[string]string {
 				if !ok {
 					continue
 				}
-				r := x.Rhs[i]
+				r := unparen(x.Rhs[i])
 				if u, ok := r.(*ast.UnaryExpr); ok && u.Op == token.AND {
-					r = u.X
+					r = unparen(u.X)
 				}
 				switch y := r.(type) {
+				case *ast.SelectorExpr:
+					// alias of a field of the receiver: pb := dec.primitiveBlock
+					if rx, ok := y.X.(*ast.Ident); ok && rx.Name == recvName(fd) {
+						if t, ok := curFieldTypes[y.Sel.Name]; ok {
+							vt[id.Name] = t
+						}
+					}
 				case *ast.CompositeLit:
 					vt[id.Name] = typeName(y.Type)
 				case *ast.CallExpr:
@@ -684,6 +696,30 @@ func (fi *fileInfo) dispatches(fd *ast.FuncDecl) map[string][]arm {
 			arms = append(arms, a)
 			return true
 		})
+		// the same chain written as a tagless switch: switch { case fn == 2 && !skip: ... }
+		ast.Inspect(fd.Body, func(n ast.Node) bool {
+			sw, ok := n.(*ast.SwitchStmt)
+			if !ok || sw.Tag != nil {
+				return true
+			}
+			for _, st := range sw.Body.List {
+				cc := st.(*ast.CaseClause)
+				if len(cc.List) != 1 {
+					continue
+				}
+				num, guard, ok := fnCond(cc.List[0], fnVar)
+				if !ok {
+					continue
+				}
+				body := &ast.BlockStmt{List: cc.Body}
+				a := fi.armOf(num, guard, body, mv, fd)
+				if f := failsAtOnce(body); f != "" {
+					a.targets = addUniq(a.targets, f)
+				}
+				arms = append(arms, a)
+			}
+			return true
+		})
 		sort.SliceStable(arms, func(i, j int) bool { return arms[i].num < arms[j].num })
 		if len(arms) > 0 {
 			out[fd.Name.Name] = arms
@@ -1140,11 +1176,14 @@ func main() {
 	// ---------- decode_data.go ----------
 	file := parseFile(filepath.Join(repo, "osmpbf", "decode_data.go"))
 	helpers := inlineFile(file) // normal form: helpers and closures inlined into their call sites
+	if os.Getenv("PBFCODE_DUMP") != "" {
+		printer.Fprint(os.Stderr, fset, file)
+	}
 	fi := &fileInfo{funcs: map[string]*ast.FuncDecl{}, fieldTypes: map[string]string{}}
 	for _, d := range file.Decls {
 		switch x := d.(type) {
 		case *ast.FuncDecl:
-			if x.Recv == nil && helpers[x.Name.Name] {
+			if helpers[x.Name.Name] {
 				continue // lives on, inlined, in its callers
 			}
 			fi.funcs[x.Name.Name] = x
@@ -1170,6 +1209,7 @@ func main() {
 			}
 		}
 	}
+	curFieldTypes = fi.fieldTypes
 	var names []string
 	all := map[string][]arm{}
 	for fn, fd := range fi.funcs {
